@@ -549,7 +549,7 @@ Lemma estep_sim st sp op : erel st sp ->
        (fst (estep_spec (num_entry sh_size) (get_entry img le sh_offset sh_size) bc_decode sp op)).
 Proof.
   intros (Hmemo & Hents & Hdecs).
-  destruct op as [|n|e|e|e|d|d| |]; cbn [estep estep_spec].
+  destruct op as [|n|e|e|e|d|d| | |e]; cbn [estep estep_spec].
   - rewrite (info_num_ok _ Hmemo). cbn [fst snd]. split; [reflexivity|]. repeat split; auto.
   - rewrite (info_num_ok _ Hmemo).
     change (info_get img le sh_offset (num_entry sh_size) n) with (get_entry img le sh_offset sh_size n).
@@ -581,6 +581,9 @@ Proof.
     destruct Hd as [Hb Hi]. rewrite Hi. split; [reflexivity|]. repeat split; auto.
   - cbn [fst snd]. split; [reflexivity|]. repeat split; auto.
   - cbn [fst snd]. split; [reflexivity|]. repeat split; auto.
+  - rewrite Hents. destruct (nth_error (es_entries sp) e) as [r|]; cbn [fst snd]; (split; [reflexivity|]).
+    + repeat split; auto.
+    + repeat split; auto.
 Qed.
 
 Lemma erun_sim : forall h st sp, erel st sp ->
